@@ -92,7 +92,10 @@ func build(rd []rdesc, hd []hdesc) (*world, error) {
 			}
 			cfg.StaticIPs = append(cfg.StaticIPs, s)
 		}
-		if d.parent >= 0 {
+		if d.parent >= 0 && d.qcap < 0 {
+			// no NATType given: the router's default (endpoint-independent mapping, address-and-port-dependent filtering, 30 s)
+			cfg.QueueSize = 0
+		} else if d.parent >= 0 {
 			nt := &vnet.NATType{MappingBehavior: vnet.EndpointDependencyType(d.mb), FilteringBehavior: vnet.EndpointDependencyType(d.fb), MappingLifeTime: d.life,
 				Hairpinning: (d.mb+d.fb)%2 == 0} // documented as not implemented: must not change anything
 			if d.o2o {
@@ -336,6 +339,9 @@ func genTopo(r *rand.Rand) ([]rdesc, []hdesc) {
 		d.life = lifes[r.IntN(len(lifes))]
 		nm := 1 + r.IntN(2)
 		d.o2o = r.IntN(4) == 0
+		if !d.o2o && r.IntN(6) == 0 {
+			d.qcap, d.mb, d.fb, d.life = -1, 0, 2, 30*time.Second // default NAT type (queue size -1: unlimited, marks "no NATType")
+		}
 		for j := 0; j < nm; j++ {
 			d.mapped = append(d.mapped, base+uint32(100+10*len(rd)+j))
 			if d.o2o {
